@@ -3,7 +3,7 @@ package props
 // C04 — route selection follows the documented precedence, deterministically.
 //
 //   c04-model        differential: real routers (router.NewRouters) vs the reference model of c04_model.go
-//                    A  every set of 1..3 domains of a 48-domain alphabet (each domain its own virtual host, one
+//                    A  every set of 1..3 (thorough: 1..4) domains of a 48-domain alphabet (each domain its own virtual host, one
 //                       matcher-less route per host) x every request name x port: virtual-host precedence alone
 //                    B  random full configurations (1..9 virtual hosts, overlapping domains, ordered route lists mixing
 //                       path/prefix/regex/header/method/variable/RPC rules) x (names x ports x bodies): MatchRoute and
@@ -218,7 +218,7 @@ func c04CheckRoutes(c *lab.Ctx, caseNo int, cfg *c04Config, vh int, rt types.Rou
 
 func c04Model(c *lab.Ctx) {
 	c04Quiet()
-	c.Rule("differential against a reference model written from the statement. A: every set of 1..3 domains of a 48-domain alphabet " +
+	c.Rule("differential against a reference model written from the statement. A: every set of 1..3 (thorough 1..4) domains of a 48-domain alphabet, plus sampled larger sets " +
 		"(exact / wildcard-suffix / dotless suffix / default x no port, :80, :8080, :*; one virtual host per domain, random host order and " +
 		"letter case) x 11 request names x 4 ports (+ absent Host); B: random configurations (1..9 virtual hosts, 0..8 ordered routes mixing " +
 		"path/prefix/regex/header/method/variable/RPC rules over small alphabets) x names x ports x bodies (half aimed at a configured route); " +
@@ -288,25 +288,25 @@ func c04Model(c *lab.Ctx) {
 		}
 	}
 	n := len(alpha)
-	for i := 0; i < n; i++ {
-		runSet([]int{i})
-	}
-	for i := 0; i < n; i++ {
-		for j := i + 1; j < n; j++ {
-			runSet([]int{i, j})
+	maxK := c.Pick(3, 4) // every domain set up to this size is run
+	var rec func(cur []int, from, k int)
+	rec = func(cur []int, from, k int) {
+		if len(cur) == k {
+			runSet(append([]int(nil), cur...))
+			return
+		}
+		for i := from; i < n; i++ {
+			rec(append(cur, i), i+1, k)
 		}
 	}
-	for i := 0; i < n; i++ {
-		for j := i + 1; j < n; j++ {
-			for k := j + 1; k < n; k++ {
-				runSet([]int{i, j, k})
-			}
-		}
+	for k := 1; k <= maxK; k++ {
+		rec(nil, 0, k)
 	}
-	c.Count("A-domain-sets", int64(caseNo))
+	c.Count("A-domain-sets-enumerated", int64(caseNo))
+	c.Count("A-max-enumerated-set-size", int64(maxK))
 	// larger sets, sampled
-	for s := 0; s < c.Pick(3000, 120000); s++ {
-		k := 4 + rng.Intn(5)
+	for s := 0; s < c.Pick(3000, 100000); s++ {
+		k := maxK + 1 + rng.Intn(5)
 		p := rng.Perm(n)[:k]
 		sort.Ints(p)
 		runSet(p)
@@ -315,7 +315,7 @@ func c04Model(c *lab.Ctx) {
 
 	// ---------------------------------------------------------------- B: full configurations
 	var judgedB, matchedB int64
-	nB := c.Pick(500, 6000) / c.NBatch
+	nB := c.Pick(500, 24000) / c.NBatch
 	for i := 0; i < nB; i++ {
 		caseNo++
 		cfg := c04GenConfig(rng, "c04-B", false)
@@ -365,7 +365,7 @@ func c04Model(c *lab.Ctx) {
 
 	// ---------------------------------------------------------------- C: duplicate domains must be rejected
 	var rejected int64
-	nC := c.Pick(2000, 20000)
+	nC := c.Pick(2000, 20000) / c.NBatch
 	for i := 0; i < nC; i++ {
 		caseNo++
 		cfg := c04GenConfig(rng, "c04-C", false)
@@ -439,7 +439,10 @@ func c04Determinism(c *lab.Ctx) {
 		"distinct = (round, phase, answer shape)")
 	rng := c.Rand("determinism")
 	mgr := router.GetRoutersMangerInstance()
-	rounds := c.Pick(30, 300)
+	rounds := c.Pick(30, 300) / c.NBatch
+	if rounds < 1 {
+		rounds = 1
+	}
 	reps := c.Pick(12, 20)
 	const readers = 16
 	var concurrentLookups, writerOps, updateBack, reAdd int64
